@@ -1,8 +1,10 @@
 package c18
 
 import (
+	"encoding/xml"
 	"fmt"
 	"os"
+	"time"
 
 	"verif/harness/internal/ev"
 	"verif/harness/internal/s3c"
@@ -48,6 +50,30 @@ func laneProbe(c *ev.Ctx, what string) {
 	case "dirobj":
 		p.step(&op{kind: "put", class: "dirobj", desc: "signed put dir2/ with data", mut: true, bucket: b, keys: []string{b + "/dir2/"}, dom: "obj",
 			req: objReq("PUT", b, "dir2/", "", nil, body)})
+	case "attrs":
+		p.step(&op{kind: "put", class: "x", desc: "PUT b", mut: true, bucket: b, keys: []string{b + "/b"}, dom: "obj", req: objReq("PUT", b, "b", "", nil, body)})
+		p.step(&op{kind: "get-object-attributes", class: "existing", desc: "attrs", bucket: b, keys: []string{b + "/b"}, dom: "obj", body: "xml",
+			req: objReq("GET", b, "b", "attributes=", s3c.H{{"x-amz-object-attributes", "ETag,ObjectSize"}}, nil)})
+		p.step(&op{kind: "get-bucket-versioning", class: "existing", desc: "GET ?versioning", bucket: b, dom: "cfg", body: "xml", req: bktReq("GET", b, "versioning=", nil, nil)})
+	case "slowmd5":
+		big := p.partBody(true)
+		u := &mup{slot: 1, bucket: b, key: "m", parts: map[int][]byte{}, open: true}
+		p.m.ups = append(p.m.ups, u)
+		p.step(&op{kind: "create-mpu", class: "plain", desc: "POST ?uploads", mut: true, bucket: b, dom: "up", slot: 1, body: "xml", req: objReq("POST", b, "m", "uploads=", nil, nil),
+			after: func(s *side, r *s3c.Resp) {
+				var x struct{ UploadId string }
+				xml.Unmarshal(r.Body, &x)
+				s.ups[1] = &upState{id: x.UploadId, etags: map[int]string{}}
+			}})
+		for _, sd := range []*side{p.D, p.P} {
+			for _, st := range []*s3c.Stream{nil, {Mode: s3c.StreamSigned, ChunkSizes: []int{65536}}} {
+				t0 := time.Now()
+				r := sd.cl.Do(&s3c.Req{Method: "PUT", Path: s3c.ObjPath(b, "m"), Query: s3c.Q("partNumber", "1", "uploadId", sd.uploadID(1)), Body: big, Stream: st,
+					Header: s3c.H{{"Content-MD5", s3c.MD5B64([]byte("other"))}}})
+				fmt.Printf("%s stream=%v: %s in %.1fs\n", sd.name, st != nil, r.String(), time.Since(t0).Seconds())
+			}
+		}
+		return
 	case "badupload":
 		u := &mup{slot: -1, bucket: b, key: "k"}
 		for i := 0; i < 6; i++ {
